@@ -38,13 +38,13 @@ def set_zone(z):
     time.tzset()
 
 
-def emit(iface, build):
+def emit(iface, build, headers=()):
     """build(ns) -> response; returns (set-cookie lines as str, exc)"""
     from baize import asgi, wsgi
     if iface == "wsgi":
-        r = drivers.run_wsgi(build(wsgi), drivers.to_environ(drivers.Req()))
+        r = drivers.run_wsgi(build(wsgi), drivers.to_environ(drivers.Req(headers=list(headers))))
         return [v for k, v in (r.headers or []) if k.lower() == "set-cookie"], r.exc, r.headers
-    r = drivers.run_asgi(build(asgi), drivers.to_scope(drivers.Req()))
+    r = drivers.run_asgi(build(asgi), drivers.to_scope(drivers.Req(headers=list(headers))))
     raw = [(k, v) for k, v in (r.headers or []) if k.lower() == b"set-cookie"]
     lines = []
     for k, v in raw:
@@ -67,13 +67,22 @@ def roundtrip(ctx, rng, cookies, zone=None):
     """cookies: list of (name, value) with unique names"""
     case = {"cookies": cookies}
 
+    k = len(repr(cookies)) % 40
+    carrier = "file" if k == 0 else "file-range" if k == 1 else ("text", "empty", "json", "redirect")[k % 4]  # cookies travel on any kind of response
+    case["carrier"] = carrier
+    fpath = os.path.join(ctx.tmpdir("c16carrier"), "carrier.txt")
+    if not os.path.exists(fpath):
+        with open(fpath, "wb") as f:
+            f.write(b"carrier file\n")
+
     def build(ns):
-        r = ns.PlainTextResponse("x")
+        r = {"text": lambda: ns.PlainTextResponse("x"), "empty": lambda: ns.Response(204), "json": lambda: ns.JSONResponse({"a": 1}),
+             "redirect": lambda: ns.RedirectResponse("/next"), "file": lambda: ns.FileResponse(fpath), "file-range": lambda: ns.FileResponse(fpath)}[carrier]()
         for n, v in cookies:
             r.set_cookie(n, v)
         return r
     for iface in ("wsgi", "asgi"):
-        lines, exc, _ = emit(iface, build)
+        lines, exc, _ = emit(iface, build, [("Range", "bytes=1-3")] if carrier == "file-range" else [])
         if exc is not None:
             ctx.violation(f"emit|exception|{type(exc).__name__}", dict(case, iface=iface), repr(exc))
             continue
